@@ -50,7 +50,7 @@ PROPS = {
         bin="c03",
         quick=NATIVE_Q, thorough=deep(8),
         floors={"value.ts_vmin": 100, "value.ts_vargmax": 100, "value.ts_vrank[pct=1,rev=1]": 100, "value.ts_vzscore": 50,
-                "value.ts_vminmaxnorm": 50, "spy.rescans_observed": 50, "state.extreme_expired": 50,
+                "value.ts_vminmaxnorm": 50, "state.extreme_expired": 50,
                 "state.extreme_expired_newest_null": 5, "state.all_null_window": 20, "state.tied_extreme": 50,
                 "state.constant_inexact_window_after_interrupted_run": 20},
         rule="sweep (len 1..N x window 1..len+2 x min_periods {None,0..w} x 10 null patterns) + random (len<=90) + long monotone/plateau "
@@ -133,12 +133,14 @@ PROPS = {
         thorough=deep(4) + [("miri", 1.0), ("mirirel", 1.0), ("asan", (0.5, 2)), ("vg", 0.05)],
         floors={"subjects.shift": 50, "subjects.vshift": 50, "subjects.vdiff": 50, "subjects.vpartition": 50, "subjects.varg_partition": 50,
                 "subjects.vcut": 20, "subjects.winsorize": 5, "subjects.rolling_custom_iter": 10, "subjects.pipeline": 100,
-                "partial_probes_ok": 500, "nth_probes_ok": 500, "collectors_ok": 500, "titer_ok": 20, "generators_ok": 20},
+                "partial_probes_ok": 500, "nth_probes_ok": 500, "collectors_ok": 500, "titer_ok": 20, "generators_ok": 20,
+                "subjects.range_iter": 20, "subjects.linspace_iter": 20, "generator_iter_probes_ok": 100},
         technique="runtime monitoring: conservation monitor (announced = yielded at every probe point) + hook H1 in the raw collectors; Miri (dev and release-like), ASan, memcheck on the un-hooked collectors",
         rule="every trusted-length iterator the library hands out: titer() of each backend (front/back partial consumption), shift / vshift / "
              "vdiff / vpct_change over lags -len-3..=len+3 and i32::MIN/MAX, ffill / bfill / fill / abs / vabs / vclip (5 bound shapes), "
              "vpartition / varg_partition k in 0..=len+2 x sort x rev, winsorize (3 methods), rolling_custom_iter w in 1..=len+2, vcut over "
-             "bins 0..3 x labels 0..4 x flags, range / linspace through the collecting constructors, and random pipelines of depth 1..6 "
+             "bins 0..3 x labels 0..4 x flags, range / linspace through the collecting constructors and (hook H4, native modes) "
+             "as bare generator iterators incl. consumption from the back, and random pipelines of depth 1..6 "
              "(library adaptors + std map/take/chain/zip/enumerate/step_by) over Box<dyn TrustedLen>. size_hint().1 is compared with the "
              "number of items obtained by safe iteration before consumption, after every partial consumption by next() and after "
              "nth(j) for j around the end; then "
